@@ -229,6 +229,9 @@ impl Property for C01 {
         }
         ev.add("comparisons", comparisons);
         add_fault_counters(&mut ev, &trace.counts);
+        if trace.harness_error.is_some() {
+            ev.harness_error = trace.harness_error.clone();
+        }
         ev.nontrivial = comparisons > 0 && (rollbacks > 0 || trace.counts.restores + trace.counts.roundtrips > 0);
         ev.log = log;
         ev.sample = serde_json::json!({
@@ -278,6 +281,7 @@ pub fn add_fault_counters(ev: &mut Evaluation, c: &FaultCounts) {
     ev.add("faults.format_msgpack", c.by_format[1]);
     ev.add("faults.format_bincode", c.by_format[2]);
     ev.add("lines_reexecuted_after_restart", c.lines_reexecuted);
+    ev.add("faults.restart_in_separate_os_process_with_tag_skew", c.os_process_restarts);
 }
 
 /// Shrink candidates shared by C01 and C08: drop lines, drop ops, drop or simplify schedule steps.
@@ -351,6 +355,14 @@ pub fn shrink_case(case: &Case) -> Vec<Case> {
             Step::Crash { hash_seed } if *hash_seed != 1 => {
                 let mut c = case.clone();
                 c.schedule.steps[si] = Step::Crash { hash_seed: 1 };
+                out.push(c);
+            }
+            Step::CrashToOsProcess { hash_seed, .. } => {
+                // prefer an in-process restart if the failure does not need a new OS process
+                let mut c = case.clone();
+                c.schedule.steps[si] = Step::Crash {
+                    hash_seed: *hash_seed,
+                };
                 out.push(c);
             }
             _ => {}
